@@ -160,7 +160,9 @@ func (db *MemDB) Bucket(name []byte) DBBucket {
 
 // CreateBucket implements DB.
 func (db *MemDB) CreateBucket(name []byte) (DBBucket, error) {
-	if db.buckets[string(name)] != nil {
+	if db.buckets[string(name)] != nil || db.puts[string(name)] != nil {
+		// (a bucket created earlier in this session exists too, even though
+		// it has not been flushed yet)
 		return nil, errors.New("bucket already exists")
 	}
 	db.puts[string(name)] = make(map[string][]byte)
